@@ -314,9 +314,20 @@ func reg2bin(beg, end int64, minShift, depth uint32) uint32 {
 
 // calculate the list of bins that may overlap with region [beg,end) (zero-based).
 func reg2bins(beg, end int64, minShift, depth uint32) []uint32 {
+	s := minShift + depth*nextBinShift
+	// Confine the region to the positions the index can
+	// hold; an empty region overlaps no bin.
+	if beg < 0 {
+		beg = 0
+	}
+	if max := int64(1) << s; end > max {
+		end = max
+	}
+	if end <= beg {
+		return nil
+	}
 	end--
 	var list []uint32
-	s := minShift + depth*nextBinShift
 	for level, t := uint32(0), uint32(0); level <= depth; level++ {
 		b := t + uint32(beg>>s)
 		e := t + uint32(end>>s)
